@@ -73,19 +73,19 @@ package scenario
 //@ func RegisterTemplater
 //@ props C18 C16
 //@ may_panic true
-//@ at call register.RegisterPtr assert typeis(arg(ptr), *gun.Templater) && arg(name) == name0 && arg(newPlugin) == mwConstructor0
+//@ at call register.RegisterPtr assert typeis(arg(ptr), *gun.Templater) && arg(name) == name0 && arg(newPlugin) == mwConstructor0 && arg(defaultConfigOptional) == defaultConfigOptional0
 
 //@ func RegisterVariableSource
 //@ props C18 C16
 //@ may_panic true
-//@ at call register.RegisterPtr assert typeis(arg(ptr), *vs.VariableSource) && arg(name) == name0 && arg(newPlugin) == mwConstructor0
+//@ at call register.RegisterPtr assert typeis(arg(ptr), *vs.VariableSource) && arg(name) == name0 && arg(newPlugin) == mwConstructor0 && arg(defaultConfigOptional) == defaultConfigOptional0
 
 //@ func RegisterGRPCPostprocessor
 //@ props C18 C16
 //@ may_panic true
-//@ at call register.RegisterPtr assert typeis(arg(ptr), *grpcgun.Postprocessor) && arg(name) == name0 && arg(newPlugin) == mwConstructor0
+//@ at call register.RegisterPtr assert typeis(arg(ptr), *grpcgun.Postprocessor) && arg(name) == name0 && arg(newPlugin) == mwConstructor0 && arg(defaultConfigOptional) == defaultConfigOptional0
 
 //@ func RegisterGRPCPreprocessor
 //@ props C18 C16
 //@ may_panic true
-//@ at call register.RegisterPtr assert typeis(arg(ptr), *grpcgun.Preprocessor) && arg(name) == name0 && arg(newPlugin) == mwConstructor0
+//@ at call register.RegisterPtr assert typeis(arg(ptr), *grpcgun.Preprocessor) && arg(name) == name0 && arg(newPlugin) == mwConstructor0 && arg(defaultConfigOptional) == defaultConfigOptional0
